@@ -203,8 +203,15 @@ func (e *Env) ServeUDPUpstream(cs *ClientSpec, onPacket func(p *UpPacket), onGar
 			}
 			ssrv = ss2022.NewUDPServer(cs.SlidingWindow, uc, ss2022.ServerIdentityCipherConfig{}, paddingPolicy(cs.PaddingPolicy))
 		}
-	} else if cs.Proto != PNone {
+	} else if cs.Proto != PNone && cs.Proto != PSocks5 {
 		return nil, fmt.Errorf("svc: no UDP upstream for protocol %q", cs.Proto)
+	}
+	if cs.Proto == PSocks5 {
+		// the UDP association is requested over TCP from the repository's SOCKS5 server, which
+		// answers with the connection's local address: the UDP socket above listens on that port
+		if _, err := e.ServeUpstream(cs, func(u *UpConn) {}); err != nil {
+			return nil, err
+		}
 	}
 	byAddr := map[netip.AddrPort]*upSession{}
 	byCSID := map[uint64]*upSession{}
@@ -241,7 +248,12 @@ func (e *Env) ServeUDPUpstream(cs *ClientSpec, onPacket func(p *UpPacket), onGar
 			} else {
 				sess = byAddr[src]
 				if sess == nil {
-					upk, _ := direct.ShadowsocksNoneUDPNATServer{}.NewUnpacker()
+					var upk zerocopy.ServerUnpacker
+					if cs.Proto == PSocks5 {
+						upk, _ = direct.Socks5UDPNATServer{}.NewUnpacker()
+					} else {
+						upk, _ = direct.ShadowsocksNoneUDPNATServer{}.NewUnpacker()
+					}
 					sess = &upSession{upk: upk}
 					byAddr[src] = sess
 				}
